@@ -59,6 +59,8 @@ func init() {
 func runC13(c *Ctx, r *Report) {
 	importFoundation(c, r, "C13", "search-window")
 	importFoundation(c, r, "C13", "driver-options")
+	r.Rule("C13/settings-writers", "the generic driver rewrites no per-operation setting behind the caller's options (stop-on-failed, eager, failure strings are what the caller passed)", 1)
+	checkSettingsWriters(c, r, "C13/settings-writers", []string{"driver/generic"})
 	r.Rule("C13/no-shadow", "network.Driver re-declares no same-typed setting of the generic driver it embeds (FailedWhenContains stays one setting)", 1)
 	checkNoShadowedSettings(c, r, "C13/no-shadow")
 	r.Rule("C13/file-lines", "the from-file variants get one command per line of the file, whatever its length (a line reader's continuation flag is not ignored)", 1)
